@@ -257,6 +257,39 @@ func (t *tester) do(args ...string) (srv.Value, bool) {
 	return v, true
 }
 
+// existence oracle (no model): a collection exists iff it holds at least one object — every key
+// listed by KEYS * must scan to at least one id, TYPE must say hash, and a key that is not listed
+// must answer TYPE none. Returns a description of the first violation, or "".
+func (t *tester) existenceOracle(probe []string) string {
+	keys := t.c.MustDo("KEYS", "*")
+	listed := map[string]bool{}
+	for _, k := range keys.Array {
+		listed[k.Str] = true
+		if k.Str == "" {
+			continue
+		}
+		ids := t.c.MustDo("SCAN", k.Str, "LIMIT", "100000", "IDS")
+		n := 0
+		if len(ids.Array) == 2 {
+			n = len(ids.Array[1].Array)
+		}
+		if n == 0 {
+			ty := t.c.MustDo("TYPE", k.Str)
+			return fmt.Sprintf("KEYS * lists %q but SCAN %q IDS returns no id (TYPE answers %s): a collection without objects exists", k.Str, k.Str, ty.String())
+		}
+	}
+	for _, k := range probe {
+		if k == "" {
+			continue
+		}
+		ty := t.c.MustDo("TYPE", k)
+		if listed[k] != (ty.Str == "hash") {
+			return fmt.Sprintf("TYPE %q answers %s but KEYS * lists it: %v", k, ty.String(), listed[k])
+		}
+	}
+	return ""
+}
+
 func (t *tester) dump() string {
 	keys := t.c.MustDo("KEYS", "*")
 	var recs, counts []string
@@ -312,6 +345,10 @@ var objects = [][]string{
 	{"OBJECT", `{"type":"LineString","coordinates":[[1,2],[3,4]]}`},
 	{"STRING", "hello"},
 	{"STRING", `{"a":{"b":1},"c":[1,2,3],"d":"txt"}`},
+	// geometries without coordinates: spatial, but Empty() (never indexed, counted like any object)
+	{"OBJECT", `{"type":"FeatureCollection","features":[]}`},
+	{"OBJECT", `{"type":"GeometryCollection","geometries":[]}`},
+	{"OBJECT", `{"type":"MultiPoint","coordinates":[]}`},
 }
 var jpaths = []string{"a.b", "a", "c.1", "d", "properties.name", "properties.n.m", "coordinates", "type", "x.y", "properties"}
 var jvals = []string{"5", "txt", "true", `{"q":1}`, "1e3", "null", "Point", "-"}
@@ -587,6 +624,16 @@ func (t *tester) runProgram(m *mdl, prog [][]string, label string) (nontrivial b
 			fail("correspondence", "abs-"+cmd, "abs(handler-model state) differs from the specification state after this command (refinement broken)", i, m.ask("dump"), m.ask("sdump"))
 			return false
 		}
+		if takeBefore && !strings.HasPrefix(got, "e") {
+			probe := append([]string{}, keysA...)
+			if len(args) > 1 {
+				probe = append(probe, args[1])
+			}
+			if what := t.existenceOracle(probe); what != "" {
+				// keep going: the next KEYS / TYPE / EXISTS of the program then also shows the reply difference
+				fail("oracle", "collection-without-objects", "after "+strings.Join(quoteProg([][]string{args}), "")+": "+what, i, pretty(got), "")
+			}
+		}
 		if takeBefore {
 			if negative(got) {
 				after := t.dump()
@@ -775,6 +822,14 @@ func runC01(r *hx.Result, cfg hx.Config) {
 		{S("JSET", "j", "d", "a.b", "5"), S("JGET", "j", "d"), S("JGET", "j", "d", "a", "RAW"), S("JDEL", "j", "d", "a.b"), S("JDEL", "j", "d", "nope"), S("JDEL", "j", "nokey", "a"), S("JDEL", "nocol", "d", "a"), S("GET", "j", "d")},
 		{S("SET", "f", "a", "POINT", "1", "1"), S("SET", "f", "b", "POINT", "1", "1"), S("SET", "f", "ab", "POINT", "1", "1"), S("PDEL", "f", "a*"), S("SCAN", "f", "IDS"), S("PDEL", "f", "*"), S("KEYS", "*"), S("PDEL", "f", "*")},
 		{S("SET", "k", "ab\xff\x01", "STRING", "a"), S("SET", "k", "ab", "STRING", "a"), S("PDEL", "k", "ab\xff*"), S("SCAN", "k", "IDS")},
+		// empty geometries are objects like any other: the collection goes with its last object (DEL, PDEL), stays on overwrite
+		{S("SET", "zones", "z1", "OBJECT", `{"type":"FeatureCollection","features":[]}`), S("GET", "zones", "z1"), S("GET", "zones", "z1", "POINT"), S("GET", "zones", "z1", "BOUNDS"), S("KEYS", "*"), S("EXISTS", "zones", "z1"), S("SCAN", "zones"),
+			S("DEL", "zones", "z1"), S("KEYS", "*"), S("TYPE", "zones"), S("EXISTS", "zones", "z1"), S("FGET", "zones", "z1", "x"), S("SCAN", "zones", "IDS"), S("DEL", "zones", "z1")},
+		{S("SET", "areas", "a1", "FIELD", "n", "1", "OBJECT", `{"type":"GeometryCollection","geometries":[]}`), S("SET", "areas", "a2", "POINT", "1", "2"), S("SCAN", "areas", "IDS"), S("PDEL", "areas", "a*"),
+			S("KEYS", "*"), S("TYPE", "areas"), S("FGET", "areas", "a1", "n"), S("EXISTS", "areas", "a2"), S("SET", "areas", "a3", "STRING", "s"), S("DEL", "areas", "a3"), S("KEYS", "*")},
+		{S("SET", "late", "l1", "OBJECT", `{"type":"FeatureCollection","features":[]}`), S("SET", "late", "l1", "POINT", "5", "6"), S("DEL", "late", "l1"), S("KEYS", "*"),
+			S("SET", "late", "l2", "POINT", "5", "6"), S("SET", "late", "l2", "OBJECT", `{"type":"GeometryCollection","geometries":[]}`), S("GET", "late", "l2", "WITHFIELDS"), S("DEL", "late", "l2"), S("KEYS", "*"), S("TYPE", "late"),
+			S("SET", "late", "l3", "OBJECT", `{"type":"MultiPoint","coordinates":[]}`), S("JSET", "late", "l3", "properties.p", "1"), S("EXPIRE", "late", "l3", "100"), S("PERSIST", "late", "l3"), S("RENAME", "late", "later"), S("PDEL", "later", "*"), S("KEYS", "*"), S("EXISTS", "later", "l3")},
 		{S("SET", "f", "a", "RETURN", "x", "WITHFIELDS", "POINT", "1", "1"), S("SET", "f", "a", "RETURN", "HASH"), S("SET", "f", "a", "RETURN", "HASH", "0", "POINT", "1", "1"), S("SET", "f", "a", "POINT", "1", "1", "RETURN"), S("SET", "f", "a", "POINT", "1", "1", "RETURN", "POINT", "BOUNDS", "HASH", "3", "WITHFIELDS"), S("FSET", "f", "a", "RETURN", "RETURN", "p", "1")},
 	}
 	for i, p := range corpus {
